@@ -250,6 +250,7 @@ package rosmar
 // feeds.go
 
 //@ fn (*Collection).postEvent
+//@   modular in=postNewEvent
 //@   requires event != nil
 //@   ensures [C08:postEvent.shared-event-intact] *event == old(*event)
 //@   loop 1 invariant [C08:postEvent.loop-intact] *event == old(*event)
@@ -257,9 +258,11 @@ package rosmar
 //@   ensures [C20:postEvent.unlocked] any: nolocks()
 //@
 //@ fn (*event).asFeedEvent
+//@   modular in=postNewEvent
 //@   requires e.exp == 0 || e.exp > 2592000
 //@   requires e.revSeqNo != 0
 //@   requires validX(e.xattrs)
+//@   ensures [C08,C09:asFeedEvent.nonnil]   result != nil
 //@   ensures [C08,C09:asFeedEvent.opcode]   result.Opcode == (if e.isDeletion then 3 else 2)
 //@   ensures [C08,C09,C17:asFeedEvent.meta] result.Cas == e.cas && result.Expiry == e.exp && result.RevNo == e.revSeqNo && result.CollectionID == collectionID && result.Key == bytesof(e.key)
 //@   ensures [C08,C09:asFeedEvent.json]     bit(result.DataType, 1) <==> e.isJSON
@@ -739,3 +742,77 @@ package rosmar
 //@   ensures [C12:updateView.complete]       err == nil && stmtCount("delete", "mapped") >= 1 ==> stmtCount("update", "views") == 1 && cursorCount() == 1
 //@   ensures [C12:updateView.skip-only-if-fresh] err == nil && stmtCount("delete", "mapped") == 0 && count("call:Collection.findView") == 1 && callret("Collection.findView", 1) == nil ==> collLast(c.id) == v.lastCas
 //@   ensures [C20:updateView.unlocked]       any: nolocks()
+
+// ---------------------------------------------------------------------------------------------------------------
+// Transaction and event plumbing (C03, C04, C08, C10, C14)
+
+//@ fn (*Collection).postNewEvent
+//@   requires e != nil && (e.exp == 0 || e.exp > 2592000) && e.revSeqNo != 0 && validX(e.xattrs) && c.id >= 1
+//@   ensures [C08:postNewEvent.posts-once]   count("call:Collection.postEvent") == 1 && callarg("Collection.postEvent", 0) == c && callarg("Collection.postEvent", 1) == callret("event.asFeedEvent", 0)
+//@   ensures [C08:postNewEvent.encodes-event] count("call:event.asFeedEvent") == 1 && callarg("event.asFeedEvent", 0) == e && callarg("event.asFeedEvent", 1) == c.id - 1
+//@   ensures [C14:postNewEvent.arms-timer]   e.exp != 0 ==> *c.bucket.expManager.nextExp != 0 && *c.bucket.expManager.nextExp <= e.exp
+//@   ensures [C14:postNewEvent.no-expiry]    e.exp == 0 ==> *c.bucket.expManager.nextExp == old(*c.bucket.expManager.nextExp) && count("timer.arm") == 0
+//@   ensures [C20:postNewEvent.unlocked]     any: nolocks()
+//@
+//@ fn (*Bucket).inTransaction
+//@   ensures [C13,C20:inTransaction.closed-guard] old(bucket.closed) ==> isclosed(result) && count("callback") == 0 && count("begin") == 0
+//@   ensures [C03,C10:inTransaction.one-attempt]  count("begin") <= 1 && count("callback") <= 1
+//@   ensures [C10:inTransaction.commit-iff-ok]    result == nil ==> committed && count("callback") == 1 && count("rollback") == 0
+//@   ensures [C01,C10:inTransaction.rollback]     result != nil && count("begin") == 1 ==> count("rollback") == 1 && db == old(db)
+//@   ensures [C03:inTransaction.locked]           lockedThroughout("bucket.mutex")
+//@   ensures [C20:inTransaction.unlocked]         any: nolocks()
+//@
+//@ fn (*Collection).withNewCas
+//@   requires hlc.highestTime < 9223372036854775807
+//@   ensures [C04:withNewCas.draw-in-txn]     count("callback") == 1 ==> count("hlcnow") == 1 && casDrawnInTxn() && callbackarg(1) == newCas && newCas > old(hlc.highestTime)
+//@   ensures [C04,C10,C12:withNewCas.lastcas] result == nil ==> committed && bucketLastCas == newCas && collLast(c.id) == newCas
+//@   ensures [C08:withNewCas.posts-after-commit] count("post") <= 1 && postsAfterCommit() && (count("post") == 1 ==> result == nil)
+//@   ensures [C08:withNewCas.posts-callback-event] result == nil && !isnull(cbret(0)) ==> count("post") == 1
+//@   ensures [C01,C10:withNewCas.error-rolls-back] result != nil ==> db == old(db) && count("post") == 0
+//@   ensures [C03,C10:withNewCas.onetxn]      oneTxn() && sqlAllInTxn() && lockedThroughout("c.bucket.mutex")
+//@   ensures [C20:withNewCas.unlocked]        any: nolocks()
+//@
+//@ fn (*Bucket).PurgeTombstones
+//@   ensures [C05:purge.removes-exactly-tombstones] err == nil ==> forall o: DocId :: docAt(o) == (if old(docAt(o)).present && isnull(old(docAt(o)).value) then docAt(o) else old(docAt(o))) && (docAt(o).present <==> old(docAt(o)).present && !isnull(old(docAt(o)).value))
+//@   ensures [C01,C05:purge.error-unchanged]  err != nil ==> db == old(db)
+//@   ensures [C03,C10:purge.onetxn]           oneTxn() && sqlAllInTxn() && lockedThroughout("bucket.mutex")
+//@   ensures [C20:purge.unlocked]             any: nolocks()
+//@
+//@ fn (*Bucket).dropCollection
+//@   ensures [C11:dropCollection.default-refused] name.Scope == "_default" && name.Collection == "_default" ==> result != nil && db == old(db)
+//@   ensures [C11:dropCollection.frame]    forall o: DocId :: o.coll != collid(name.Scope, name.Collection) ==> docAt(o) == old(docAt(o))
+//@   ensures [C11,C16:dropCollection.stops-own-feeds] count("call:Collection.close") <= 1 && count("mapdelete") <= 1
+//@   ensures [C11:dropCollection.one-statement] count("sql") <= 1
+//@   ensures [C20:dropCollection.unlocked] any: nolocks()
+//@
+//@ fn (*Collection).Delete
+//@   modular in=expireDocuments
+//@   flag modifies=db
+//@   requires DocInv(doc(c.id, key)) && HlcInv(doc(c.id, key)) && IntOK(doc(c.id, key))
+//@   ensures [C01:Delete.err-unchanged] err != nil ==> db == old(db)
+//@   ensures [C05:Delete.tombstone] err == nil ==> doc(c.id, key).present && isnull(doc(c.id, key).value) && doc(c.id, key).tombstone == 1 && doc(c.id, key).exp == 0
+//@   ensures [C11:Delete.frame] forall o: DocId :: o != mkId(c.id, key) ==> docAt(o) == old(docAt(o))
+//@
+//@ fn (*Collection).expireDocuments
+//@   loop 1 invariant [C14:expire.collect-loop] true
+//@   loop 2 invariant [C14:expire.delete-loop] true
+//@   loop 2 body [C14:expire.deletes-each] iter("call:Collection.Delete") == 1 && callarg("Collection.Delete", 0) == c
+//@   ensures [C11,C14:expire.selects-due] cursorCount() >= 1 ==> (forall o: DocId :: cursorWhere(0, o) <==> (old(docAt(o)).present && o.coll == c.id && old(docAt(o)).exp > 0 && old(docAt(o)).exp <= now % 4294967296))
+//@   ensures [C11,C14:expire.scoped] stmtsScoped(c.id)
+//@   ensures [C20:expire.unlocked] any: nolocks()
+//@
+//@ fn (*Bucket).nextExpiration
+//@   modular in=_scheduleExpiration
+//@   ensures [C14:nextExpiration.is-minimum] err == nil && exp != 0 ==> forall o: DocId :: docAt(o).present && docAt(o).exp > 0 ==> exp <= docAt(o).exp
+//@   ensures [C14:nextExpiration.none]       err == nil && exp == 0 ==> forall o: DocId :: !(docAt(o).present && docAt(o).exp > 0)
+//@   ensures [C14:nextExpiration.frame]      db == old(db)
+//@
+//@ fn (*Bucket).expireDocuments
+//@   modular in=doExpiration
+//@   flag modifies=db
+//@   flag trusted=iterates-collections
+//@
+//@ fn (*Bucket).doExpiration
+//@   flag maypanic
+//@   ensures [C14:doExpiration.expires-then-rearms] count("call:Bucket.expireDocuments") == 1 && count("call:Bucket._scheduleExpiration") == 1 && callpos("Bucket.expireDocuments") < callpos("Bucket._scheduleExpiration")
+//@   ensures [C20:doExpiration.panics-only-on-error] panic: count("call:Bucket.expireDocuments") == 1 && callret("Bucket.expireDocuments", 1) != nil
